@@ -23,9 +23,12 @@ PATTERNS = [
     ("re", ("seq", (RX["a"], U.q("b", (2,))))), ("re", ("seq", (RX["\\d"], RX["\\d"]))), L("aa"),
     ("re", ("seq", (RX["a"], RX["[^a]"], RX["b"]))), ("re", ("seq", (RX["[ab]"], RX["[^ab]"], RX["c"]))), ("re", ("seq", (RX["a"], U.q("[^ab]", "+"), RX["b"]))),
     ("re", ("seq", (RX["[a-c]"], RX["[^a]"], RX["c"]))), L("aba"), L("abca"), ("liti", b"aAb"), ("re", ("seq", (RX["a"], RX["a"], RX["[ab]"]))),
+    # patterns whose automaton returns to its own first state (a starred group in front)
+    ("re", ("seq", (U.q(("seq", (RX["a"], RX["b"])), "*"), RX["b"], RX["c"]))), ("re", ("seq", (U.q(("seq", (RX["a"], U.atom("[^b]", U.ALL - set(b"b")))), "*"), RX["b"]))),
+    ("re", ("seq", (U.q(("seq", (RX["a"], RX["b"])), "*"), RX["a"], RX["c"]))), ("re", ("seq", (U.q(("alt", (("seq", (RX["a"], RX["b"])), RX["c"])), "*"), RX["b"], RX["b"]))),
 ]
 
-CONTEXTS = ["plain", "try", "loop", "plain_eof", "try_eof", "pre"]
+CONTEXTS = ["plain", "try", "loop", "plain_eof", "try_eof", "pre", "optional"]
 
 
 def program(p, ctx):
@@ -70,7 +73,7 @@ def check_item(item):
     loop = ctx == "loop"
     cfg0, code0, _ = am.start()
     # oracle state: ("pre", k) for ctx 'pre' (before the wait is entered), ("wait", q), ("pend",) completion seen, post statement due now
-    if ctx == "pre":
+    if ctx in ("pre", "optional"):
         ost0 = ("pre", 0, 0)
     else:
         ost0 = ("wait", r0)
@@ -133,7 +136,12 @@ def check_item(item):
                             return bad("expected FAIL before the wait on %r, got %s" % (p2, code), p2)
                         continue
                 elif stage == 1:
-                    if c == ord("x"):
+                    if ctx == "optional":
+                        # "c"; optional { wait p; } finish F;  - a byte that can start the pattern enters the wait, and from then on it is a plain wait;
+                        # whether any other byte "enters" the optional (to be skipped by the wait) is not specified: not judged
+                        if not live(dfa, r0, c):
+                            continue
+                    elif c == ord("x"):
                         continue          # try body matched; not the subject of this check
                     q2 = restart(dfa, r0, r0, c)      # mismatch: the offending byte goes to the handler, i.e. into the wait
                     nxt = after_wait(dfa, q2)
@@ -297,6 +305,11 @@ def after_items(tier, seed):
             out.append(("after", (("match", pre), ("wait", p), ("hook", "h"), ("match", L("z")), ("hook", "g")), "AFTER#%d.%d" % (i, j)))
             if (i + j) % 2 == 0:
                 out.append(("after", (("loop", None, (("match", pre), ("wait", p), ("hook", "h"))),), "AFTERLOOP#%d.%d" % (i, j)))
+        if first == {ord("a")}:
+            # a wait as the first statement of an optional whose continuation takes every byte that cannot start the pattern (so no byte is left for which
+            # "does it enter the optional" would be open): once entered, the wait restarts on a mismatch and never hands the byte to what follows
+            out.append(("after", (("match", L("q")), ("optional", (("wait", p),)), ("match", ("re", RX["[^a]"])), ("hook", "h")), "OPTWAIT#%d" % i))
+            out.append(("after", (("loop", None, (("match", L("q")), ("optional", (("wait", p), ("hook", "g"))), ("match", ("re", RX["[^a]"])), ("hook", "h"))),), "OPTWAITLOOP#%d" % i))
     return out
 
 
